@@ -111,6 +111,24 @@ CATALOGUE.update(
 )
 
 
+def _shared_prior():
+    """One Prior instance registered for two parameters (a common shortcut: p = GammaPrior(..); use p twice)."""
+    p = _gamma()
+    return K.ScaleKernel(K.RBFKernel(lengthscale_prior=p), outputscale_prior=p)
+
+
+def _shared_prior_named():
+    p = _lognormal()
+    m = K.ScaleKernel(K.PeriodicKernel())
+    m.register_prior("outputscale_prior", p, "outputscale")
+    m.base_kernel.register_prior("lengthscale_prior", p, "lengthscale")
+    m.base_kernel.register_prior("period_length_prior", p, "period_length")
+    return m
+
+
+CATALOGUE.update({"SharedPriorObject": _shared_prior, "SharedPriorObject_named": _shared_prior_named})
+
+
 def _named(module, specs):
     """Register priors through the public name-based API: register_prior(name, prior, "<param>")."""
     for path, pub, prior in specs:
@@ -415,6 +433,19 @@ def check_all(out, i, module, ref, entry, dtype_name, where):
                 family=entry,
                 param=pub,
             )
+    # every registration of a prior is reported by named_priors() (the MLLs add the log densities of what it yields);
+    # reference: the registration store of each gpytorch module in the tree
+    reported_p = set((id(pmod), pname.rsplit(".", 1)[-1]) for pname, pmod, prior, closure, setting in module.named_priors())
+    for mname, sub in module.named_modules():
+        for local, reg in sorted(getattr(sub, "_priors", {}).items()):
+            if reg[0] is not None and (id(sub), local) not in reported_p:
+                out.violate(
+                    "registered_prior_not_reported",
+                    i,
+                    "%s: prior %r registered on %s (%s) is not yielded by named_priors()" % (entry, local, mname or "<root>", type(reg[0]).__name__),
+                    family=entry,
+                    prior=type(reg[0]).__name__,
+                )
     # (v) prior closures read the current value
     for pname, pmod, prior, closure, setting in sorted(module.named_priors(), key=lambda t: t[0]):
         try:
